@@ -113,6 +113,21 @@ CHECKS = {
             rapid("random", "TestC07Random", {"checks": 12000, "shards": 4}, {"checks": 150000, "shards": 16, "timeout": 6000}),
         ],
     },
+    "C08": {
+        "technique": "rapid random generation of set/multiset/keyed diffs and perturbed targets, differential oracle = independent reference set/bag interpreter, one hunk at a time",
+        "level_text": "Hunks of diffs made under SET, MULTISET and SetKeys are applied one at a time by jd and by a reference interpreter with set / bag / "
+                      "keyed-member semantics to targets that permute, extend, shrink or alter the addressed array or the addressed member; jd must fail "
+                      "exactly when the reference fails and agree (as a set / bag) otherwise. Exploration over sampled (diff, target) pairs.",
+        "level_note": "Trusts ref/hunk.go (set: remove-must-exist, bag: multiplicities, keyed: unique member by key values then strict inside). Targets in which "
+                      "several members match the keys of a keyed hunk are outside the statement and skipped (counted as out-of-domain).",
+        "rule": "d = a.Diff(b, set | mset | setkeys:id | setkeys:id,k) on documents with arrays at the root, under keys and inside keyed members; all / one / a sub-sequence "
+                "of the hunks; target = a, a permuted, Edit(a), or a with the array addressed by a drawn hunk perturbed (member dropped / duplicated / already added / changed inside, "
+                "not an array, keyed member's non-key field changed or removed, key changed or missing). Non-trivial: a hunk addressed through {}, [] or a keyed member is evaluated on c != a.",
+        "assumptions": ["the reference interpreter is the specification of set, multiset and keyed-member hunks"],
+        "legs": [
+            rapid("random", "TestC08Random", {"checks": 20000, "shards": 4}, {"checks": 250000, "shards": 16, "timeout": 6000}),
+        ],
+    },
     "C06": {
         "technique": "exhaustive enumeration of small array pairs + rapid random generation, oracle = independent LCS optimum and reference hunk interpreter",
         "level_text": "Every ordered pair of arrays over a small alphabet up to a length bound is enumerated (complete for that universe) and "
